@@ -148,6 +148,27 @@ func (un *Unit) execCall(fr *Frame, st *State, c *ssa.CallCommon, instr ssa.Inst
 			}
 		}
 	}
+	// a function loaded from a struct field that a `funcfield` declaration ties to a funcspec
+	if ld, ok := c.Value.(*ssa.UnOp); ok && ld.Op == token.MUL {
+		if fa, ok := ld.X.(*ssa.FieldAddr); ok {
+			if pt, ok := fa.X.Type().Underlying().(*types.Pointer); ok {
+				if n := namedOf(pt.Elem()); n != nil && n.Obj().Pkg() != nil {
+					fname := pt.Elem().Underlying().(*types.Struct).Field(fa.Field).Name()
+					if fsName, ok := un.specs.FuncFields[n.Obj().Pkg().Name()+"."+n.Obj().Name()+"."+fname]; ok {
+						fs := un.specs.FuncSpecs[fsName]
+						if fs == nil {
+							un.outside = "unknown funcspec " + fsName
+							return un.havocResults(st, sig, "call")
+						}
+						un.safety(st, fr, "nil-func", fname, not(eq(fv.t, "0")), pos)
+						names := append([]string{"this"}, sigNames(sig, fs)...)
+						all := append([]Val{{t: fv.t, typ: sig}}, args...)
+						return un.applyContract(fr, st, fs, names, sig, all, fname, pos)
+					}
+				}
+			}
+		}
+	}
 	// function-typed parameter with a funcspec
 	if p, ok := c.Value.(*ssa.Parameter); ok && fr.contract != nil {
 		if fsName, ok := fr.contract.Params[p.Name()]; ok {
@@ -554,7 +575,7 @@ func (un *Unit) execBuiltin(fr *Frame, st *State, b *ssa.Builtin, c *ssa.CallCom
 		}
 		return Val{t: r}
 	case "close":
-		un.note("close(chan) has no modelled effect")
+		un.execCloseChan(fr, st, c, args[0], pos)
 		return Val{t: "0"}
 	case "clear":
 	}
@@ -701,6 +722,13 @@ func (un *Unit) modelCall(fr *Frame, st *State, callee *ssa.Function, full strin
 	case "(*sync.Cond).Wait":
 		// releases and re-acquires the associated lock: invariant out, havoc, invariant in
 		un.condWait(fr, st, args[0], pos)
+		return unit, true
+	case "(*sync.WaitGroup).Add", "(*sync.WaitGroup).Done", "(*sync.WaitGroup).Wait":
+		// waiting for another goroutine: like a spawn, only state that is treated as changeable anyway can differ afterwards
+		un.assumed["sync.WaitGroup: Add/Done/Wait have no effect on the heap (termination of Wait is not proved)"] = true
+		if strings.HasSuffix(full, "Wait") {
+			un.havocVolatile(st)
+		}
 		return unit, true
 	case "sync.NewCond":
 		r := un.allocRef(st, "cond")
